@@ -536,7 +536,7 @@ class Exec(ExprMixin, CallMixin):
                     self.assign(t.elts[si + 1 + j], vals[len(vals) - after + j], fr)
                 return
             if vals is None:
-                if isinstance(v, AList):
+                if isinstance(v, (AList, SliceView)):
                     if self.branch(v.n != len(t.elts)):
                         raise RaiseEx("ValueError", "unpack length mismatch")
                     vals = [v.get(i) for i in range(len(t.elts))]
